@@ -62,7 +62,30 @@ type GIface struct {
 	Extras []string
 }
 
+type GCEntry struct {
+	Seq   int
+	Peer  string
+	ACL   string // ASA: match address; IOS: filter ACL (set ip access-group ACL in)
+	Trans string // ASA transform-set / ikev2 proposal name
+	PFS   string // "", "group2", "group5"
+	Life  string // "", seconds
+}
+
+type GCrypto struct {
+	Map     string
+	Iface   string
+	Entries []GCEntry
+}
+
+type GTrans struct {
+	Name string
+	Spec string   // ikev1 transform-set definition
+	V2   []string // ikev2 ipsec-proposal sub-commands (then Spec is empty)
+}
+
 type GConf struct {
+	Crypto []GCrypto
+	Trans  []GTrans
 	Kind   string
 	Ifaces []GIface
 	Groups []GGroup
@@ -77,7 +100,17 @@ var hosts = []string{"10.1.1.1", "10.1.1.2", "10.1.2.1", "10.2.0.1", "10.1.1.9",
 var nets = []struct {
 	IP   string
 	Bits int
-}{{"10.1.1.0", 24}, {"10.1.2.0", 24}, {"10.1.0.0", 16}, {"10.0.0.0", 8}, {"10.2.0.0", 24}, {"192.168.1.0", 24}}
+}{{"10.1.1.0", 24}, {"10.1.2.0", 24}, {"10.1.0.0", 16}, {"10.0.0.0", 8}, {"10.2.0.0", 24}, {"192.168.1.0", 24}, {"10.1.0.0", 24}, {"10.0.0.0", 16}}
+// RouteProbes are the addresses whose route coverage is watched (C14).
+func RouteProbes() []netip.Addr {
+	var l []netip.Addr
+	for _, a := range []string{"10.0.0.1", "10.0.200.1", "10.1.0.1", "10.1.0.200", "10.1.1.1", "10.1.2.1", "10.1.77.1",
+		"10.2.0.1", "10.200.0.1", "192.168.1.1", "8.8.8.8", "172.16.0.1"} {
+		l = append(l, netip.MustParseAddr(a))
+	}
+	return l
+}
+
 var ports = []string{"eq 80", "eq 22", "eq 443", "eq 53", "range 1024 65535", "eq 25", ""}
 
 // Packets is the universe for first-match evaluation.
@@ -172,6 +205,7 @@ type Knobs struct {
 	Independent bool // draw A independently of B
 	Shaped      bool // Netspoc-shaped ACLs: deny block, permits, final deny; edits keep the shape
 	NoShare     bool // never bind one ACL twice on the device
+	Crypto      bool // crypto map entries
 }
 
 func DefaultKnobs(kind string, t *tape.Tape) Knobs {
@@ -181,6 +215,7 @@ func DefaultKnobs(kind string, t *tape.Tape) Knobs {
 	k.Remarks = t.Chance(1, 4)
 	k.LogVariety = t.Chance(1, 3)
 	k.Independent = t.Chance(1, 12)
+	k.Crypto = t.Chance(1, 4)
 	if kind == "IOS" {
 		k.MaxGroups = 0
 	}
@@ -328,6 +363,38 @@ func GenTarget(t *tape.Tape, k Knobs) *GConf {
 		}
 		_ = i
 	}
+	// Sometimes two groups of the target differ in one member only.
+	if len(g.Groups) >= 1 && t.Chance(1, 3) && len(g.ACLs) > 0 {
+		src := g.Groups[t.Next(len(g.Groups))]
+		cp := GGroup{Name: fmt.Sprintf("g%d", len(g.Groups)+3), Members: append([]GAddr(nil), src.Members...)}
+		if t.Next(2) == 0 && len(cp.Members) > 1 {
+			cp.Members = cp.Members[1:]
+		} else {
+			m := GAddr{Kind: "host", Val: tape.Pick(t, hosts)}
+			dup := false
+			for _, x := range cp.Members {
+				if x == m {
+					dup = true
+				}
+			}
+			if !dup {
+				cp.Members = append(cp.Members, m)
+			}
+		}
+		g.Groups = append(g.Groups, cp)
+		// Make sure both are used.
+		acl := &g.ACLs[t.Next(len(g.ACLs))]
+		for _, name := range []string{src.Name, cp.Name} {
+			e := GACE{Permit: true, Proto: "tcp", Src: GAddr{Kind: "group", Val: name}, Dst: genAddr(t, nil), Port: tape.Pick(t, ports)}
+			if !hasDup(acl.Lines, e, -1) {
+				j := t.Next(len(acl.Lines))
+				acl.Lines = append(acl.Lines[:j:j], append([]GACE{e}, acl.Lines[j:]...)...)
+			}
+		}
+	}
+	if k.Crypto {
+		genCrypto(t, k, g)
+	}
 	// Only groups that are referenced belong to the target.
 	g.pruneGroups()
 	seen := map[string]bool{}
@@ -382,6 +449,10 @@ func (g *GConf) clone() *GConf {
 	}
 	n.Binds = append(n.Binds, g.Binds...)
 	n.Routes = append(n.Routes, g.Routes...)
+	n.Trans = append(n.Trans, g.Trans...)
+	for _, c := range g.Crypto {
+		n.Crypto = append(n.Crypto, GCrypto{c.Map, c.Iface, append([]GCEntry(nil), c.Entries...)})
+	}
 	return n
 }
 
@@ -424,6 +495,13 @@ func (g *GConf) renameACL(old, new string) {
 			g.Binds[i].ACL = new
 		}
 	}
+	for i := range g.Crypto {
+		for j := range g.Crypto[i].Entries {
+			if g.Crypto[i].Entries[j].ACL == old {
+				g.Crypto[i].Entries[j].ACL = new
+			}
+		}
+	}
 }
 
 func hasDup(lines []GACE, e GACE, except int) bool {
@@ -448,6 +526,37 @@ func DeriveDevice(t *tape.Tape, k Knobs, b *GConf) (*GConf, []string) {
 		for _, acl := range b.ACLs {
 			a.renameACL(acl.Name, fmt.Sprintf("%s-DRC-%d", acl.Name, t.Next(2)))
 		}
+	}
+	ops = append(ops, cryptoEdits(t, k, a)...)
+	// The device uses one group where the target has two (similar) groups.
+	if len(a.Groups) >= 2 && t.Chance(1, 4) {
+		i := t.Next(len(a.Groups))
+		j := (i + 1 + t.Next(len(a.Groups)-1)) % len(a.Groups)
+		keep, drop := a.Groups[i].Name, a.Groups[j].Name
+		a.renameGroup(drop, keep)
+		var gl []GGroup
+		seen := false
+		for _, gr := range a.Groups {
+			if gr.Name == keep {
+				if seen {
+					continue
+				}
+				seen = true
+			}
+			gl = append(gl, gr)
+		}
+		a.Groups = gl
+		// Renaming may have produced duplicate lines.
+		for ai := range a.ACLs {
+			var l []GACE
+			for _, e := range a.ACLs[ai].Lines {
+				if !hasDup(l, e, -1) {
+					l = append(l, e)
+				}
+			}
+			a.ACLs[ai].Lines = l
+		}
+		ops = append(ops, "device uses group "+keep+" where the target has two groups")
 	}
 	nEdits := t.Next(k.MaxEdits + 1)
 	for i := 0; i < nEdits; i++ {
@@ -712,6 +821,11 @@ func (g *GConf) ToConf(asDevice bool) *cisco.Conf {
 				o.Subs = append(o.Subs, "ip access-group "+b.ACL+" "+b.Dir)
 			}
 		}
+		for _, c := range g.Crypto {
+			if c.Iface == i.HW && len(c.Entries) > 0 {
+				o.Subs = append(o.Subs, "crypto map "+c.Map)
+			}
+		}
 		o.Subs = append(o.Subs, i.Extras...)
 		c.Objs = append(c.Objs, o)
 	}
@@ -720,6 +834,8 @@ func (g *GConf) ToConf(asDevice bool) *cisco.Conf {
 		for _, m := range gr.Members {
 			if m.Kind == "host" {
 				o.Subs = append(o.Subs, "network-object host "+m.Val)
+			} else if m.Kind == "groupobj" {
+				o.Subs = append(o.Subs, "group-object "+m.Val)
 			} else {
 				o.Subs = append(o.Subs, "network-object "+m.Val+" "+maskOf(m.Bits, false))
 			}
@@ -746,6 +862,12 @@ func (g *GConf) ToConf(asDevice bool) *cisco.Conf {
 		} else {
 			c.Objs = append(c.Objs, &cisco.Obj{Head: fmt.Sprintf("ip route %s %s %s", r.Dst, maskOf(r.Bits, false), r.Hop)})
 		}
+	}
+	if g.Kind == "IOS" {
+		// crypto maps are printed first by IOS; keep them in front.
+		c.Objs = append(g.cryptoObjs(), c.Objs...)
+	} else {
+		c.Objs = append(c.Objs, g.cryptoObjs()...)
 	}
 	c.Objs = append(c.Objs, g.Clutter...)
 	return c
@@ -784,9 +906,22 @@ func AddClutter(t *tape.Tape, a *GConf) []string {
 			what = append(what, "unused untagged group")
 		}
 		if t.Next(2) == 0 {
-			a.ACLs = append(a.ACLs, GACL{Name: "manual_acl", Lines: []GACE{
-				{Permit: true, Proto: "ip", Src: GAddr{Kind: "host", Val: "10.77.0.2"}, Dst: GAddr{Kind: "any"}}}})
+			acl := GACL{Name: "manual_acl", Lines: []GACE{
+				{Permit: true, Proto: "ip", Src: GAddr{Kind: "host", Val: "10.77.0.2"}, Dst: GAddr{Kind: "any"}}}}
 			what = append(what, "unused untagged ACL")
+			if t.Next(2) == 0 {
+				// Chain: manually configured group-policy -> generated-looking
+				// filter ACL -> generated-looking group.
+				a.Groups = append(a.Groups, GGroup{"mfg-DRC-0", []GAddr{{Kind: "host", Val: "10.77.0.9"}}})
+				a.ACLs = append(a.ACLs, GACL{Name: "mfilter-DRC-0", Lines: []GACE{
+					{Permit: true, Proto: "ip", Src: GAddr{Kind: "group", Val: "mfg-DRC-0"}, Dst: GAddr{Kind: "any"}}}})
+				a.Clutter = append(a.Clutter,
+					&cisco.Obj{Head: "group-policy MANUAL internal"},
+					&cisco.Obj{Head: "group-policy MANUAL attributes", Mode: true,
+						Subs: []string{"vpn-filter value mfilter-DRC-0", "vpn-idle-timeout 30"}})
+				what = append(what, "manual group-policy -> tagged filter ACL -> tagged group")
+			}
+			a.ACLs = append(a.ACLs, acl)
 		}
 		if t.Next(2) == 0 {
 			a.Clutter = append(a.Clutter,
@@ -846,4 +981,207 @@ func permitBlock(l []GACE) (int, int) {
 		hi++
 	}
 	return lo, hi
+}
+
+var peers = []string{"193.1.1.1", "193.1.1.2", "193.1.1.3", "193.1.1.4", "193.1.1.5"}
+var transSpecs = []string{"esp-aes-256 esp-sha-hmac", "esp-3des esp-md5-hmac", "esp-aes esp-sha-hmac"}
+
+func genCrypto(t *tape.Tape, k Knobs, g *GConf) {
+	intf := g.Ifaces[t.Next(len(g.Ifaces))]
+	ifName := intf.Name
+	if k.Kind == "IOS" {
+		ifName = intf.HW
+	}
+	c := GCrypto{Map: "crypto-" + strings.ReplaceAll(ifName, "/", "_"), Iface: ifName}
+	if k.Kind == "ASA" {
+		for i, n := 0, 1+t.Next(2); i < n; i++ {
+			if t.Next(3) == 0 {
+				g.Trans = append(g.Trans, GTrans{Name: fmt.Sprintf("Prop%d", i+1), V2: []string{
+					"protocol esp encryption " + []string{"aes-256", "aes-192 aes", "3des"}[t.Next(3)],
+					"protocol esp integrity " + []string{"sha-1", "sha-256", "md5"}[t.Next(3)]}})
+			} else {
+				g.Trans = append(g.Trans, GTrans{Name: fmt.Sprintf("Trans%d", i+1), Spec: transSpecs[t.Next(len(transSpecs))]})
+			}
+		}
+	}
+	used := map[string]bool{}
+	for i, n := 0, 1+t.Next(3); i < n; i++ {
+		p := tape.Pick(t, peers)
+		if used[p] {
+			continue
+		}
+		used[p] = true
+		e := GCEntry{Seq: len(c.Entries) + 1, Peer: p}
+		aclName := fmt.Sprintf("crypto-%s", p)
+		if k.Kind == "IOS" {
+			aclName = fmt.Sprintf("crypto-filter-%s", p)
+		}
+		kk := k
+		kk.MaxLines = 2
+		acl := genACL(t, kk, aclName, nil)
+		if k.Kind == "ASA" {
+			// crypto ACLs hold permit lines only
+			var l []GACE
+			for _, x := range acl.Lines {
+				if x.Remark == "" && x.Permit {
+					l = append(l, x)
+				}
+			}
+			if len(l) == 0 {
+				l = []GACE{{Permit: true, Proto: "ip", Src: GAddr{Kind: "net", Val: "10.1.1.0", Bits: 24}, Dst: GAddr{Kind: "net", Val: "10.2.0.0", Bits: 24}}}
+			}
+			acl.Lines = l
+			e.Trans = g.Trans[t.Next(len(g.Trans))].Name
+			e.PFS = []string{"", "", "group2", "group5"}[t.Next(4)]
+			e.Life = []string{"", "3600", "43200"}[t.Next(3)]
+		}
+		g.ACLs = append(g.ACLs, acl)
+		e.ACL = aclName
+		c.Entries = append(c.Entries, e)
+	}
+	g.Crypto = append(g.Crypto, c)
+}
+
+// cryptoEdits derives device-side differences of crypto maps.
+func cryptoEdits(t *tape.Tape, k Knobs, a *GConf) []string {
+	var ops []string
+	for ci := range a.Crypto {
+		c := &a.Crypto[ci]
+		// Transform-sets carry the tag of an earlier run, or another name.
+		if k.Kind == "ASA" && t.Next(2) == 0 {
+			for i := range a.Trans {
+				old := a.Trans[i].Name
+				nn := fmt.Sprintf("%s-DRC-%d", old, t.Next(2))
+				a.Trans[i].Name = nn
+				for j := range c.Entries {
+					if c.Entries[j].Trans == old {
+						c.Entries[j].Trans = nn
+					}
+				}
+			}
+			ops = append(ops, "transform-sets tagged")
+		}
+		for n := t.Next(4); n > 0; n-- {
+			switch t.Next(7) {
+			case 0: // other sequence numbers on the device
+				off := 1 + t.Next(5)
+				for j := range c.Entries {
+					c.Entries[j].Seq = c.Entries[j].Seq*2 + off
+				}
+				ops = append(ops, "crypto entries renumbered")
+			case 1: // an entry is missing on the device
+				if len(c.Entries) > 1 {
+					j := t.Next(len(c.Entries))
+					c.Entries = append(c.Entries[:j:j], c.Entries[j+1:]...)
+					ops = append(ops, "crypto entry missing on device")
+				}
+			case 2: // an extra peer on the device
+				p := tape.Pick(t, peers)
+				dup := false
+				for _, e := range c.Entries {
+					if e.Peer == p {
+						dup = true
+					}
+				}
+				if !dup {
+					e := GCEntry{Seq: 40 + t.Next(20), Peer: p}
+					for _, x := range c.Entries {
+						if x.Seq == e.Seq {
+							e.Seq += 100
+						}
+					}
+					name := "crypto-old-" + p
+					a.ACLs = append(a.ACLs, GACL{Name: name, Lines: []GACE{{Permit: true, Proto: "ip", Src: GAddr{Kind: "host", Val: "10.1.1.1"}, Dst: GAddr{Kind: "any"}}}})
+					e.ACL = name
+					if k.Kind == "ASA" && len(a.Trans) > 0 {
+						e.Trans = a.Trans[0].Name
+					}
+					c.Entries = append(c.Entries, e)
+					ops = append(ops, "extra crypto peer on device")
+				}
+			case 3: // other transform-set on an entry
+				if k.Kind == "ASA" && len(a.Trans) > 1 && len(c.Entries) > 0 {
+					j := t.Next(len(c.Entries))
+					c.Entries[j].Trans = a.Trans[t.Next(len(a.Trans))].Name
+					ops = append(ops, "other transform-set on device")
+				}
+			case 4: // pfs / lifetime differ
+				if k.Kind == "ASA" && len(c.Entries) > 0 {
+					j := t.Next(len(c.Entries))
+					c.Entries[j].PFS = []string{"", "group2", "group5"}[t.Next(3)]
+					c.Entries[j].Life = []string{"", "3600", "86400"}[t.Next(3)]
+					ops = append(ops, "pfs/lifetime differ")
+				}
+			case 5: // crypto map has another name on the device
+				c.Map = "VPN"
+				ops = append(ops, "crypto map named VPN on device")
+			case 6: // transform-set spec differs
+				if k.Kind == "ASA" && len(a.Trans) > 0 {
+					tr := &a.Trans[t.Next(len(a.Trans))]
+					if tr.V2 != nil {
+						tr.V2 = []string{"protocol esp encryption " + []string{"aes-256", "aes", "des"}[t.Next(3)],
+							"protocol esp integrity " + []string{"sha-1", "sha-512"}[t.Next(2)]}
+						if t.Next(3) == 0 {
+							tr.V2 = tr.V2[:1]
+						}
+					} else {
+						tr.Spec = transSpecs[t.Next(len(transSpecs))]
+					}
+					ops = append(ops, "transform-set / proposal definition differs")
+				}
+				if k.Kind == "IOS" && len(c.Entries) > 0 {
+					c.Entries[t.Next(len(c.Entries))].ACL = ""
+					ops = append(ops, "crypto entry without filter on device")
+				}
+			}
+		}
+	}
+	return ops
+}
+
+func (g *GConf) cryptoObjs() []*cisco.Obj {
+	var l []*cisco.Obj
+	if g.Kind == "ASA" {
+		v2 := map[string]bool{}
+		for _, tr := range g.Trans {
+			if tr.V2 != nil {
+				v2[tr.Name] = true
+				l = append(l, &cisco.Obj{Head: "crypto ipsec ikev2 ipsec-proposal " + tr.Name, Mode: true,
+					Subs: append([]string(nil), tr.V2...)})
+			} else {
+				l = append(l, &cisco.Obj{Head: fmt.Sprintf("crypto ipsec ikev1 transform-set %s %s", tr.Name, tr.Spec)})
+			}
+		}
+		for _, c := range g.Crypto {
+			for _, e := range c.Entries {
+				pre := fmt.Sprintf("crypto map %s %d ", c.Map, e.Seq)
+				l = append(l, &cisco.Obj{Head: pre + "match address " + e.ACL})
+				if e.PFS != "" {
+					l = append(l, &cisco.Obj{Head: pre + "set pfs " + e.PFS})
+				}
+				l = append(l, &cisco.Obj{Head: pre + "set peer " + e.Peer})
+				if e.Trans != "" && v2[e.Trans] {
+					l = append(l, &cisco.Obj{Head: pre + "set ikev2 ipsec-proposal " + e.Trans})
+				} else if e.Trans != "" {
+					l = append(l, &cisco.Obj{Head: pre + "set ikev1 transform-set " + e.Trans})
+				}
+				if e.Life != "" {
+					l = append(l, &cisco.Obj{Head: pre + "set security-association lifetime seconds " + e.Life})
+				}
+			}
+			l = append(l, &cisco.Obj{Head: fmt.Sprintf("crypto map %s interface %s", c.Map, c.Iface)})
+		}
+		return l
+	}
+	for _, c := range g.Crypto {
+		for _, e := range c.Entries {
+			o := &cisco.Obj{Head: fmt.Sprintf("crypto map %s %d ipsec-isakmp", c.Map, e.Seq), Mode: true}
+			if e.ACL != "" {
+				o.Subs = append(o.Subs, "set ip access-group "+e.ACL+" in")
+			}
+			o.Subs = append(o.Subs, "set peer "+e.Peer)
+			l = append(l, o)
+		}
+	}
+	return l
 }
